@@ -161,6 +161,8 @@ func main() {
 	switch os.Args[1] {
 	case "hist":
 		cmdHist(os.Args[2:])
+	case "alloc":
+		cmdAlloc(os.Args[2:])
 	default:
 		fmt.Fprintln(os.Stderr, "unknown engine", os.Args[1])
 		os.Exit(2)
